@@ -334,7 +334,11 @@ def split_texts(formula):
     while rest.strip():
         rest = rest.lstrip()
         for tc in Lexer.TOKENS:
-            tok, sub = tc.get(rest, Cell(0, 0, 0))
+            try:
+                tok, sub = tc.get(rest, Cell(0, 0, 0))
+            except Exception:  # noqa: the catch-all class raises; what is left is returned as one piece
+                out.append(rest)
+                return out
             if tok is not None and type(tok).__name__ != 'WhitespaceToken':
                 out.append(rest[:len(rest) - len(sub)])
                 rest = sub
